@@ -116,3 +116,25 @@ def mk_av(items, form, salt=0):
 
 def plain(perms):
     return [tuple(p) for p in perms]
+
+
+_LOCKS = {"done": False, "registry": []}
+
+
+def isolate_locks():
+    """Av._CACHE_LOCK is a multiprocessing.Lock created at import time: forked
+    worker processes would all contend on that one cross-process semaphore.
+    Replace every lock of permuta.perm_sets by a process-local SimLock (an
+    ordinary uncontended lock outside a thread simulation)."""
+    if _LOCKS["done"]:
+        return _LOCKS["registry"]
+    import sys  # pylint: disable=import-outside-toplevel
+
+    import permuta.perm_sets.basis  # noqa: F401  pylint: disable=import-outside-toplevel,unused-import
+    import permuta.perm_sets.permset  # noqa: F401  pylint: disable=import-outside-toplevel,unused-import
+    from sim import threadsim  # pylint: disable=import-outside-toplevel
+
+    mods = [m for name, m in sorted(sys.modules.items()) if name.startswith("permuta.perm_sets") and m is not None]
+    _LOCKS["registry"] = threadsim.install_sim_locks(mods)
+    _LOCKS["done"] = True
+    return _LOCKS["registry"]
